@@ -7,15 +7,14 @@ D=/verif/seeded/$ID
 mkdir -p $D
 cp $WT/_seed/patch.diff $WT/_seed/demo.rs $WT/_seed/meta.json $D/ 2>/dev/null
 cd $WT || exit 2
-# with the change: suite must pass, demo must fail
+# start from the pristine source (never git stash: the stash is shared by all worktrees)
+git checkout -q -- src
 mkdir -p tests && cp $D/demo.rs tests/demo.rs
-git -C $WT status --short | grep -v "_seed\|tests/demo.rs" | head -5
+FEAT=$(python3 -c "import json,sys; m=json.load(open('$D/meta.json')); c=m.get('demo_cmd',''); print('--features checks' if 'checks' in c else '')" 2>/dev/null)
+DEMO_WITHOUT=$( (cargo test --offline $FEAT --test demo 2>&1 || true) | grep -E "^test result" | tail -1)
+git apply $D/patch.diff || { echo "patch does not apply in worktree"; exit 2; }
 SUITE=$( (cargo nextest run --workspace --no-fail-fast --offline -E 'not binary(demo)' 2>&1 || true) | grep -E "Summary|tests run" | tail -1)
-DEMO_WITH=$( (cargo test --offline --test demo 2>&1 || true) | grep -E "^test result" | tail -1)
-# without the change
-git stash -q -- src
-DEMO_WITHOUT=$( (cargo test --offline --test demo 2>&1 || true) | grep -E "^test result" | tail -1)
-git stash pop -q
+DEMO_WITH=$( (cargo test --offline $FEAT --test demo 2>&1 || true) | grep -E "^test result" | tail -1)
 rm -f tests/demo.rs
 echo "suite(with): $SUITE"; echo "demo(with): $DEMO_WITH"; echo "demo(without): $DEMO_WITHOUT"
 # our check against it
